@@ -445,7 +445,8 @@ EDIT_TAGS = [('p', {}), ('p', {'class': 'a'}), ('span', {'lang': 'de'}), ('li', 
 
 # selectors whose answer an edit of that kind is likely to change (asked before and after the edit)
 EDIT_ALIGNED = {
-    'text': [':-soup-contains(hello)', ':-soup-contains-own(world)', ':-soup-contains("foo bar", x)', ':empty', 'p:not(:empty)',
+    'text': [':-soup-contains-own(hello)', 'p:-soup-contains-own(zzz)', ':-soup-contains-own(x, bar)',
+             ':-soup-contains(hello)', ':-soup-contains-own(world)', ':-soup-contains("foo bar", x)', ':empty', 'p:not(:empty)',
              ':-soup-contains(Test) > *', ':dir(auto)', 'bdi:dir(rtl), :dir(ltr)', ':has(:-soup-contains-own(a))'],
     'class': ['.a', '.b.c', '.x', ':nth-child(1 of .a)', ':not(.a)', '[class~=b]', ':is(.a, .x) > *', ':nth-last-child(1 of .x)'],
     'id': ['#d1', '#zz', '[id]', ':not(#d1)', '#d1 ~ *'],
@@ -455,7 +456,7 @@ EDIT_ALIGNED = {
              ':in-range', ':out-of-range', ':placeholder-shown', 'input:not(:checked)', ':default, :indeterminate',
              'option:checked', ':link', ':any-link'],
     'attr': ['[k]', '[k="1"]', '[K]', '[type=radio]', '[type="RADIO" i]', '[href^="#"]', '[value]', '[name=r1]', '[content]'],
-    'struct': [':root', ':root > *', 'html:root', ':root :first-child', ':root > p', ':root', '* > p',
+    'struct': [':-soup-contains-own(hello)', ':-soup-contains-own(a, x)', ':root', ':root > *', 'html:root', ':root :first-child', ':root > p', ':root', '* > p',
                ':first-child', ':last-child', ':only-child', ':nth-child(2)', ':nth-last-child(1 of p)', ':empty', ':root',
                ':has(> p)', ':has(+ p)', 'p ~ p', ':nth-of-type(2)', ':only-of-type', 'li:nth-child(2 of .c) li:nth-child(1)',
                ':default', ':indeterminate', ':lang(de)', ':dir(rtl)', 'form :checked', ':not(:has(*))'],
@@ -466,7 +467,7 @@ _FORM_ATTRS = {'checked', 'disabled', 'required', 'selected', 'type', 'name', 'h
 
 def edit_family(edit):
     kind = edit[0]
-    if kind == 'text':
+    if kind in ('text', 'addtext'):
         return 'text'
     if kind in ('move', 'remove', 'new', 'wrap', 'unwrap', 'top', 'detach'):
         return 'struct'
@@ -496,8 +497,11 @@ def gen_edit(rng):
             return ['delattr', i, rng.randint(0, 5)]    # the n-th attribute the element has
         return ['delattr', i, rng.choice(['class', 'id', 'lang', 'dir', 'checked', 'disabled', 'type', 'name', 'href', 'value',
                                           'required', 'selected', 'content', 'xml:lang', 'k'])]
-    if r < 0.70:
+    if r < 0.66:
         return ['text', i, rng.choice(TEXTS + ['hello world', 'x'])]
+    if r < 0.70:
+        # tag.append("more text"): the element ends up with two text nodes in a row (no parser produces that)
+        return ['addtext', i, rng.choice(['hello', ' world', 'x', 'bar'])]
     if r < 0.80:
         return ['move', i, rng.randint(0, 60)]
     if r < 0.85:
@@ -578,6 +582,9 @@ def _apply_edit(root, edit):
             if type(c) is bs4.NavigableString:
                 c.replace_with(bs4.NavigableString(edit[2]))
                 return True
+        el.append(bs4.NavigableString(edit[2]))
+        return True
+    if kind == 'addtext':
         el.append(bs4.NavigableString(edit[2]))
         return True
     if kind == 'move':
